@@ -412,8 +412,12 @@ def _reaches_any(body, start, targets, facts=None):
     flags = set()
     if facts is not None:
         for l, ds in body.defs().items():
-            if facts.ty(body.local_ty(l)).get("k") == "bool" and any(
-                    d[2] == "A" and d[3][2][0] == "use" and const_int(d[3][2][1]) in (0, 1) for d in ds):
+            k_ = facts.ty(body.local_ty(l)).get("k")
+            if k_ == "bool" and any(d[2] == "A" and d[3][2][0] == "use" and const_int(d[3][2][1]) in (0, 1) for d in ds):
+                flags.add(l)
+            elif k_ in ("uint", "int") and l != 0 and len(ds) >= 2 and any(
+                    d[2] == "A" and len(d[3][1]) == 1 and d[3][2][0] == "use" and const_int(d[3][2][1]) == 0 for d in ds):
+                # a status accumulator `let mut m = 0; if len == N { .. m = ..; } .. return m`: its literal zero is a failure
                 flags.add(l)
 
     def flag_of(op):
@@ -427,6 +431,8 @@ def _reaches_any(body, start, targets, facts=None):
             d = body.single_def(l)
             if d and d[2] == "A" and d[3][2][0] == "use":
                 l = operand_local(d[3][2][1])
+            elif d and d[2] == "A" and d[3][2][0] == "cast" and d[3][2][1] == "IntToInt":
+                l = operand_local(d[3][2][2])
             elif d and d[2] == "A" and d[3][2][0] == "un" and d[3][2][1] == "Not":
                 l = operand_local(d[3][2][2])
                 neg = not neg
@@ -434,8 +440,52 @@ def _reaches_any(body, start, targets, facts=None):
                 return None
         return None
 
+    def really_success(x, known):
+        """block x is in `targets`; with the flag values known on this path, does it give the result a non-failure value?"""
+        kn = dict(known)
+        for s_ in body.blocks[x]["s"]:
+            if s_[0] != "A":
+                continue
+            if len(s_[1]) == 1 and s_[1][0] in flags:
+                c = const_int(s_[2][1]) if s_[2][0] == "use" else None
+                if c is not None:
+                    kn[s_[1][0]] = c
+                else:
+                    kn.pop(s_[1][0], None)
+            if s_[1][0] == 0 and not _failure_rvalue(s_[2]):
+                rv = s_[2]
+                o = rv[1] if rv[0] == "use" else rv[2] if rv[0] == "cast" else None
+                fo = flag_of(o) if o is not None and len(s_[1]) == 1 else None
+                if fo is not None and not fo[1] and kn.get(fo[0]) == 0:
+                    continue        # `return m` on a path where m still holds its literal zero
+                return True
+        t_ = body.blocks[x]["t"]
+        return t_[0] == "call" and bool(t_[3]) and t_[3][0] == 0
+
+    def reach_from(a):
+        out, wk = set(), [a]
+        while wk:
+            x_ = wk.pop()
+            for y_ in body.succ[x_]:
+                if y_ not in out:
+                    out.add(y_)
+                    wk.append(y_)
+        return out
+
+    # flag values already fixed when `start` is entered: a literal definition that dominates `start` while no other
+    # definition of the flag can reach it (`let mut m = 0; if len == N { .. m = ..; }` seen from the `len != N` edge)
+    init = {}
+    for l in flags:
+        ds = body.defs().get(l, [])
+        cds = [d for d in ds if d[2] == "A" and len(d[3][1]) == 1 and d[3][2][0] == "use" and const_int(d[3][2][1]) is not None]
+        if len(cds) != 1 or not body.dominates(cds[0][0], start) or cds[0][0] == start:
+            continue
+        others = [d for d in ds if d is not cds[0]]
+        if all(start not in reach_from(d[0]) and d[0] != start for d in others):
+            init[l] = const_int(cds[0][3][2][1])
+
     seen = set()
-    st = [(start, frozenset())]
+    st = [(start, frozenset(init.items()))]
     steps = 0
     while st and steps < 100000:
         steps += 1
@@ -443,13 +493,13 @@ def _reaches_any(body, start, targets, facts=None):
         if (x, fv) in seen:
             continue
         seen.add((x, fv))
-        if x in targets:
+        if x in targets and really_success(x, dict(fv)):
             return True
         known = dict(fv)
         for s_ in body.blocks[x]["s"]:
             if s_[0] == "A" and len(s_[1]) == 1 and s_[1][0] in flags:
                 c = const_int(s_[2][1]) if s_[2][0] == "use" else None
-                if c in (0, 1):
+                if c is not None and (c in (0, 1) or facts.ty(body.local_ty(s_[1][0])).get("k") != "bool"):
                     known[s_[1][0]] = c
                 else:
                     known.pop(s_[1][0], None)
@@ -459,7 +509,7 @@ def _reaches_any(body, start, targets, facts=None):
         nfv = frozenset(known.items())
         if t[0] == "switch":
             fo = flag_of(t[1])
-            if fo is not None and fo[0] in known:
+            if fo is not None and fo[0] in known and (not fo[1] or facts.ty(body.local_ty(fo[0])).get("k") == "bool"):
                 val = known[fo[0]] ^ (1 if fo[1] else 0)
                 tgt = None
                 for v, b_ in t[2]:
